@@ -23,6 +23,8 @@ Lemma ttoks_suf o x : is_prefix o = false -> ttoks (EUn o x) = ttoks x ++ [W; un
 Proof. intros H. unfold ttoks. cbn [aprint]. rewrite H, ttoks_app. reflexivity. Qed.
 Lemma ttoks_group x : ttoks (EGroup x) = TT_StartGroup :: ttoks x ++ [TT_EndGroup].
 Proof. unfold ttoks. cbn [aprint map]. rewrite ttoks_app. reflexivity. Qed.
+Lemma ttoks_nested lbl b : ttoks (ENested lbl b) = TT_StartExpression :: W :: ttoks b ++ [W; TT_EndExpression].
+Proof. unfold ttoks. cbn [aprint map]. rewrite ttoks_app. reflexivity. Qed.
 Lemma ttoks_space l r : ttoks (EList Space l r) = ttoks l ++ W :: ttoks r.
 Proof. unfold ttoks. cbn [aprint]. rewrite !ttoks_app. reflexivity. Qed.
 
@@ -44,6 +46,8 @@ Lemma ntoks_suf o x : is_prefix o = false -> ntoks (EUn o x) = ntoks x + 2.
 Proof. intros H. rewrite <- !ntoks_ttoks, (ttoks_suf _ _ H), app_length. reflexivity. Qed.
 Lemma ntoks_group x : ntoks (EGroup x) = S (ntoks x + 1).
 Proof. rewrite <- !ntoks_ttoks, ttoks_group. cbn [length]. rewrite app_length. reflexivity. Qed.
+Lemma ntoks_nested lbl b : ntoks (ENested lbl b) = S (S (ntoks b + 2)).
+Proof. rewrite <- !ntoks_ttoks, ttoks_nested. cbn [length]. rewrite app_length. reflexivity. Qed.
 Lemma ntoks_space l r : ntoks (EList Space l r) = ntoks l + S (ntoks r).
 Proof. rewrite <- !ntoks_ttoks, ttoks_space, app_length. reflexivity. Qed.
 Lemma ntoks_binary e t l r : as_binary e = Some (Some t, l, r) -> ntoks e = ntoks l + (3 + ntoks r).
@@ -102,6 +106,22 @@ Proof.
   destruct prev as [p|]; [rewrite andb_true_r|]; destruct (items_of r (S i) (Some (KOpen BRound)) false); reflexivity.
 Qed.
 
+Lemma items_open_curly r i prev sp :
+  items_of (TT_StartExpression :: r) i prev sp
+  = option_map (fun R => leadl prev sp ++ IOpen BCurly i :: R) (items_of r (S i) (Some (KOpen BCurly)) false).
+Proof.
+  cbn [items_of ref_kind starts_value_k]. unfold leadl.
+  destruct prev as [p|]; [rewrite andb_true_r|]; destruct (items_of r (S i) (Some (KOpen BCurly)) false); reflexivity.
+Qed.
+
+Lemma items_close_curly r i prev sp :
+  items_of (TT_EndExpression :: r) i prev sp
+  = option_map (fun R => IClose BCurly i :: R) (items_of r (S i) (Some (KClose BCurly)) false).
+Proof.
+  cbn [items_of ref_kind starts_value_k].
+  destruct prev as [p|]; [rewrite andb_false_r|]; destruct (items_of r (S i) (Some (KClose BCurly)) false); reflexivity.
+Qed.
+
 Lemma items_suffix t r i prev sp : ref_kind t = KSuffix ->
   items_of (t :: r) i prev sp
   = option_map (fun R => ISuffix (ref_def t) i :: R) (items_of r (S i) (Some KSuffix) false).
@@ -131,6 +151,7 @@ Fixpoint lastk (e : expr) : tok_kind :=
   match e with
   | EUn o x => if is_prefix o then lastk x else KSuffix
   | EGroup _ => KClose BRound
+  | ENested _ _ => KClose BCurly
   | EBin _ _ r | EAnd _ r | EOr _ r | EList _ _ r | ECond _ _ r | EElse _ r => lastk r
   | _ => KValue
   end.
@@ -161,6 +182,7 @@ Inductive shape (e : expr) : Type :=
 | ShPre o x : e = EUn o x -> is_prefix o = true -> shape e
 | ShSuf o x : e = EUn o x -> is_prefix o = false -> shape e
 | ShGroup x : e = EGroup x -> shape e
+| ShNested lbl b : e = ENested lbl b -> shape e
 | ShSpace l r : e = EList Space l r -> shape e
 | ShBin t l r : as_binary e = Some (Some t, l, r) -> shape e.
 
@@ -178,6 +200,7 @@ Proof.
   - eapply ShGroup. reflexivity.
   - eapply ShBin. reflexivity.
   - eapply ShBin. reflexivity.
+  - eapply ShNested. reflexivity.
 Qed.
 
 Lemma eitems_binary e t l r off : as_binary e = Some (Some t, l, r) ->
@@ -213,7 +236,7 @@ Proof.
     = option_map (fun R => leadl prev sp ++ eitems y i ++ R) (items_of rest (i + ntoks y) (Some (lastk y)) false)).
   { intros y Hy. apply IHn. lia. }
   clear IHn Hn.
-  intros F rest i prev sp. destruct (shape_of lvl e F) as [El Hi _ (t & Ht & Hk & Hd)|o x -> Ho|o x -> Ho|x ->|l r ->|t l r Hb].
+  intros F rest i prev sp. destruct (shape_of lvl e F) as [El Hi _ (t & Ht & Hk & Hd)|o x -> Ho|o x -> Ho|x ->|lbl b ->|l r ->|t l r Hb].
   - (* atom *)
     rewrite Ht. cbn [app]. rewrite (items_value _ _ _ _ _ Hk), Hi, Hd.
     assert (En : ntoks e = 1) by (rewrite <- ntoks_ttoks, Ht; reflexivity).
@@ -241,6 +264,14 @@ Proof.
     replace (S (S i + ntoks x)) with (i + S (ntoks x + 1)) by lia.
     replace (S i + ntoks x) with (i + 1 + ntoks x) by lia. replace (S i) with (i + 1) by lia.
     apply option_map_ext. intros R. cbn [leadl app]. rewrite <- !app_assoc. reflexivity.
+  - (* nested expression *)
+    cbn [efrag] in F. apply andb_true_iff in F. destruct F as [_ F].
+    rewrite ttoks_nested. cbn [app]. rewrite items_open_curly, items_space, <- app_assoc.
+    rewrite (IH b ltac:(cbn [size]; lia) F).
+    cbn [app]. rewrite items_space, items_close_curly, !option_map_map. cbn [lastk eitems]. rewrite ntoks_nested.
+    replace (S (S (S (S i) + ntoks b))) with (i + S (S (ntoks b + 2))) by lia.
+    replace (S (S (S i) + ntoks b)) with (i + 3 + ntoks b) by lia. replace (S (S i)) with (i + 2) by lia.
+    apply option_map_ext. intros R. cbn [leadl ends_value_k andb app]. rewrite <- !app_assoc. reflexivity.
   - (* space list *)
     cbn [efrag] in F. apply andb_true_iff in F. destruct F as [F Fr]. apply andb_true_iff in F. destruct F as [_ Fl].
     rewrite ttoks_space, <- app_assoc. rewrite (IH l ltac:(cbn [size]; lia) Fl).
@@ -304,4 +335,5 @@ Proof.
     pose proof (IHe1 off ltac:(assumption)). pose proof (IHe2 (off + ntoks e1 + 3) ltac:(assumption)). lia.
   - match goal with |- _ <= ntoks ?E => rewrite (ntoks_binary E _ _ _ eq_refl) end; cbn [eitems]; rewrite app_length; cbn [length].
     pose proof (IHe1 off ltac:(assumption)). pose proof (IHe2 (off + ntoks e1 + 3) ltac:(assumption)). lia.
+  - cbn [eitems]. rewrite ntoks_nested. cbn [length]. rewrite app_length. cbn [length]. pose proof (IHe (off + 2) ltac:(assumption)). lia.
 Qed.
